@@ -10,7 +10,9 @@ import (
 	"os"
 	"os/exec"
 	"runtime"
+	"runtime/debug"
 	"strconv"
+	"strings"
 	"sync"
 	"time"
 
@@ -76,7 +78,11 @@ func WorkerMain(fn ScenarioFunc) {
 	func() {
 		defer func() {
 			if e := recover(); e != nil {
-				res.Err = fmt.Sprint(e)
+				// a panic outside a controlled execution: the code under test panicked in one of the
+				// scenario's solo / set-up calls (a harness bug would show on the unchanged tree too)
+				res.FailN["panic/outside-controlled-execution"]++
+				res.Failures = append(res.Failures, report.Failure{Class: "panic/outside-controlled-execution",
+					What: fmt.Sprintf("scenario %s: %v | %s", a[0], e, firstLines(string(debug.Stack()), 16)), Case: map[string]any{"kind": "schedule", "scenario": a[0], "choices": []int{}}})
 			}
 		}()
 		res.Stats = fn(a[0], o, &Collector{res})
@@ -222,4 +228,12 @@ func Merge(r *report.R, m *Result) {
 	} else if m.Stats.Stopped {
 		r.Incomplete(fmt.Sprintf("scenario %s: time budget reached", m.Scenario))
 	}
+}
+
+func firstLines(s string, n int) string {
+	l := strings.Split(s, "\n")
+	if len(l) > n {
+		l = l[:n]
+	}
+	return strings.Join(l, " | ")
 }
